@@ -13,7 +13,9 @@ Notation node := N.
 Notation edge := (N * N)%type.
 
 (* ------------------------------------------------------------------------- control *)
-Inductive exn := ValueError | KeyError | TypeError | RuntimeError | IndexError.
+(* BreakSignal and OutOfFuel are not Python exceptions: `break` is modelled as a signal caught by the innermost loop
+   (py_loop_b / py_while), OutOfFuel says that a `while` did not finish within the fuel the caller of the model gave *)
+Inductive exn := ValueError | KeyError | TypeError | RuntimeError | IndexError | PyException | BreakSignal | OutOfFuel.
 Inductive ctl (R : Type) := CNormal | CContinue | CReturn (r : R) | CRaise (e : exn).
 Arguments CNormal {R}. Arguments CContinue {R}. Arguments CReturn {R} r. Arguments CRaise {R} e.
 (* what a call yields: a value, an exception, or falling off the end (Python: None) *)
@@ -46,6 +48,31 @@ Fixpoint py_loop {A} (body : A -> stmt S R) (l : list A) (s : S) : ctl R * S :=
   end.
 Definition py_for {A} (it : S -> list A) (body : A -> stmt S R) : stmt S R :=
   fun s => py_loop body (it s) s.
+(* a `for` whose body contains `break` *)
+Fixpoint py_loop_b {A} (body : A -> stmt S R) (l : list A) (s : S) : ctl R * S :=
+  match l with
+  | [] => (CNormal, s)
+  | x :: l' => match body x s with
+               | (CNormal, s') | (CContinue, s') => py_loop_b body l' s'
+               | (CRaise BreakSignal, s') => (CNormal, s')
+               | r => r
+               end
+  end.
+Definition py_for_b {A} (it : S -> list A) (body : A -> stmt S R) : stmt S R :=
+  fun s => py_loop_b body (it s) s.
+(* `while c: body` with at most `fuel` evaluations of c *)
+Fixpoint py_while (fuel : nat) (c : S -> bool) (body : stmt S R) (s : S) : ctl R * S :=
+  match fuel with
+  | O => (CRaise OutOfFuel, s)
+  | Datatypes.S f =>
+      if c s then
+        match body s with
+        | (CNormal, s') | (CContinue, s') => py_while f c body s'
+        | (CRaise BreakSignal, s') => (CNormal, s')
+        | r => r
+        end
+      else (CNormal, s)
+  end.
 Definition py_outcome (c : ctl R) : result R :=
   match c with CNormal | CContinue => RetNone | CReturn r => Ret r | CRaise e => Exc e end.
 Definition py_run (b : stmt S R) (s : S) : result R :=
@@ -240,7 +267,7 @@ Definition py_in_degree (G : pygraph) (v : node) : Z := py_len (py_in_edges G v)
 
 (* ------------------------------------------------------------------------- result printing (correspondence runs) *)
 Definition exn_code (e : exn) : Z :=
-  match e with ValueError => 0 | KeyError => 1 | TypeError => 2 | RuntimeError => 3 | IndexError => 4 end%Z.
+  match e with ValueError => 0 | KeyError => 1 | TypeError => 2 | RuntimeError => 3 | IndexError => 4 | PyException => 5 | BreakSignal => 6 | OutOfFuel => 7 end%Z.
 Definition enc_Q (q : Q) : list Z := let r := Qred q in [Qnum r; Zpos (Qden r)].
 Definition enc_result {R} (enc : R -> list Z) (r : result R) : list Z :=
   match r with Ret v => 0%Z :: enc v | Exc e => [1%Z; exn_code e] | RetNone => [2%Z] end.
@@ -316,3 +343,22 @@ Qed.
 
 Definition enc_nodes (l : list node) : list Z := map Z.of_N l.
 Definition enc_edges (l : list edge) : list Z := flat_map (fun e => [Z.of_N (fst e); Z.of_N (snd e)]) l.
+
+(* ------------------------------------------------------------------------- an s-t graph object as a decoder sees it *)
+(* G.source, G.sink and, per node, list(G.successors(v)) in networkx' adjacency order *)
+Record sgraph := mk_sgraph { sg_source : node; sg_sink : node; sg_succ : list (node * list node) }.
+Definition py_successors (G : sgraph) (v : node) : list node := py_dict_get N.eqb (sg_succ G) v [].
+
+Definition py_is_empty {A} (l : list A) : bool := match l with [] => true | _ => false end.
+(* l[lo:hi] with Python's treatment of negative and out-of-range bounds (None = omitted) *)
+Definition py_slice_bound (n : Z) (b : option Z) (dflt : Z) : Z :=
+  match b with
+  | None => dflt
+  | Some i => let j := if (i <? 0)%Z then (i + n)%Z else i in Z.max 0 (Z.min n j)
+  end.
+Definition py_slice {A} (l : list A) (lo hi : option Z) : list A :=
+  let n := Z.of_nat (length l) in
+  let a := py_slice_bound n lo 0%Z in let b := py_slice_bound n hi n in
+  firstn (Z.to_nat (b - a)) (skipn (Z.to_nat a) l).
+Definition enc_paths (o : option (list (list node))) : list (list Z) :=
+  match o with None => [[0%Z]] | Some ps => [1%Z] :: map enc_nodes ps end.
